@@ -141,6 +141,7 @@ class Spelling(object):
 def render_expr(e, lang, sp):
     k = e[0]
     R = lambda x: render_expr(x, lang, sp)
+    RA = lambda x: R(x) if x[0] in ('f', 'named', 'lit', 'NR', 'NF', 'bNR', 'NU', 'aNR', 'paren', 'list', 'call', 'upper', 'split') else '(%s)' % R(x)      # the receiver of a method call / attribute: compound expressions in brackets
     if k == 'f':
         style = e[3] if len(e) > 3 else sp.field_style
         if style == 'a[N]':
@@ -182,11 +183,11 @@ def render_expr(e, lang, sp):
     if k == 'like':
         return 'like(%s, %s)' % (R(e[1]), lit_text(e[2], sp.quote))
     if k == 'len':
-        return ('len(%s)' % R(e[1])) if lang == 'py' else ('%s.length' % R(e[1]))
+        return ('len(%s)' % R(e[1])) if lang == 'py' else ('%s.length' % RA(e[1]))
     if k == 'upper':
-        return ('%s.upper()' if lang == 'py' else '%s.toUpperCase()') % R(e[1])
+        return ('%s.upper()' if lang == 'py' else '%s.toUpperCase()') % RA(e[1])
     if k == 'split':
-        return '%s.split(%s)' % (R(e[1]), lit_text(e[2], sp.quote))
+        return '%s.split(%s)' % (RA(e[1]), lit_text(e[2], sp.quote))
     if k == 'list':
         return '[%s]' % ', '.join(R(x) for x in e[1:])
     if k == 'tuple':
